@@ -270,10 +270,10 @@ Definition kmer_at (s : dna) (include_rc : bool) (k i : Z) : dna :=
 Definition count_dna (v : dna) (l : list dna) : Z := zlen (filter (seq_eqb v) l).
 
 Definition eval_uniquify_global (k : Z) (l reference : loc) (include_rc : bool) (s : dna) : evaluation :=
-  let idx := zrange (lstart reference) (lend reference - k) in
+  let idx := zrange (lstart reference) (lend reference - k + 1) in
   let kmers := map (kmer_at s include_rc k) idx in
   let bad := filter (fun i => (2 <=? count_dna (kmer_at s include_rc k i) kmers)
-                              && (lstart l <=? i) && (i <? i + k) && (i + k <? lend l)) idx in
+                              && (lstart l <=? i) && (i <? i + k) && (i + k <=? lend l)) idx in
   mkEv (zq (- zlen bad)) (Some (map (fun i => mkLoc i (i + k) 0) bad)).
 
 (* local evaluation: multiset bookkeeping as in the Python code; the ORDER of reported locations
@@ -384,7 +384,7 @@ Definition uniq_localized (k : Z) (l reference : loc) (include_rc : bool) (w : l
           let changing := pyslice (loc_indices zone) 0 (- k + 1) in
           let km := kmer_at s include_rc k in
           let part (lc : loc) :=
-            let all := pyslice (loc_indices lc) 0 (- k) in
+            let all := pyslice (loc_indices lc) 0 (zlen (loc_indices lc) - k + 1) in
             let fixed := filter (fun i => negb (existsb (Z.eqb i) changing)) all in
             let chg := filter (fun i => existsb (Z.eqb i) changing) all in
             (map km fixed, chg) in
